@@ -1,12 +1,13 @@
 (* Lemmas for property C08.  The finite facts are decided by case analysis over the finite
-   inductive types themselves (wtype, bool, ptype, method, cls): the generated tables are total
-   functions on them, so [destruct; reflexivity] is a complete proof, re-checked against the
-   freshly generated tables on every run.  The statement about programs is by induction. *)
+   inductive types themselves (wtype, content, bool, ptype, method, cls): the generated tables are
+   total functions on them, so [destruct; reflexivity] is a complete proof, re-checked against the
+   freshly generated tables on every run.  The statements about programs are by induction. *)
 From LV Require Import Model.PTypeSpec.
 
 Ltac fin := repeat match goal with
   | s : wstate |- _ => destruct s as [? ?]
   | w : wtype |- _ => destruct w
+  | c : content |- _ => destruct c
   | b : bool |- _ => destruct b
   | p : ptype |- _ => destruct p
   | m : method |- _ => destruct m
@@ -14,16 +15,16 @@ Ltac fin := repeat match goal with
   end.
 
 (* ---- (a) the tables ---- *)
-Lemma mul_table_matches_doc : forall w tl p,
-  erase (observed_mul (St w tl) p) = tdoc w (doc_mul w p).
+Lemma mul_table_matches_doc : forall w b p clip,
+  erase (observed_mul (St w b) p clip) = tdoc w (doc_mul w p).
 Proof. intros; fin; reflexivity. Qed.
 
-Lemma propagation_matches_doc : forall m w,
-  erase (observed_prop m (St w false)) = tdoc w (doc_prop m w).
-Proof. intros; fin; reflexivity. Qed.
+Lemma propagation_matches_doc : forall m w b, b <> Tilted ->
+  erase (observed_prop m (St w b)) = tdoc w (doc_prop m w).
+Proof. intros m w b H; fin; try congruence; reflexivity. Qed.
 
 Lemma propagation_with_tilt : forall m w,
-  erase (observed_prop m (St w true)) =
+  erase (observed_prop m (St w Tilted)) =
   if (match m with Fft => true | Dft => false end) && observed_fft_refuses_tilt
   then TRaises ENotImplementedError w
   else tdoc w (doc_prop m w).
@@ -32,29 +33,31 @@ Proof. intros; fin; reflexivity. Qed.
 Lemma propagation_only_between_pupil_and_image :
   (forall m s s', observed_prop m s = Yields s' ->
      (ty s = WPupil /\ ty s' = WImage) \/ (ty s = WImage /\ ty s' = WPupil)) /\
-  (forall m tl, exists e, observed_prop m (St WNone tl) = Raises e (St WNone tl)) /\
-  (forall w tl, w <> WNone -> exists s', observed_prop Dft (St w tl) = Yields s') /\
-  (forall w, w <> WNone -> exists s', observed_prop Fft (St w false) = Yields s').
+  (forall m b, exists e, observed_prop m (St WNone b) = Raises e (St WNone b)) /\
+  (forall w b, w <> WNone -> exists s', observed_prop Dft (St w b) = Yields s') /\
+  (forall w b, w <> WNone -> b <> Tilted -> exists s', observed_prop Fft (St w b) = Yields s').
 Proof.
   repeat split.
   - intros m s s' H. fin; cbn in H; try discriminate H; inversion H; cbn; auto.
-  - intros m tl. fin; cbn; eexists; reflexivity.
-  - intros w tl H. fin; try congruence; cbn; eexists; reflexivity.
-  - intros w H. fin; try congruence; cbn; eexists; reflexivity.
+  - intros m b. fin; cbn; eexists; reflexivity.
+  - intros w b H. fin; try congruence; cbn; eexists; reflexivity.
+  - intros w b H H'. fin; try congruence; cbn; eexists; reflexivity.
 Qed.
 
 (* ---- one step ---- *)
 Lemma step_follows_doc : forall s o, op_claimed o = true -> step observed s o = step documented s o.
 Proof.
-  intros s o H. destruct o as [p | k | m].
+  intros s o H. destruct o as [p clip | k clip | m | s'].
   - fin; reflexivity.
   - fin; try discriminate H; reflexivity.
   - fin; reflexivity.
+  - reflexivity.
 Qed.
 
 Lemma refused_step_keeps_state : forall s (o : op cls) e k, step observed s o = Raises e k -> k = s.
 Proof.
-  intros s o e k H. destruct o as [p | c | m]; fin; cbn in H; try discriminate H; inversion H; reflexivity.
+  intros s o e k H. destruct o as [p clip | c clip | m | s']; [| | | discriminate H];
+    fin; cbn in H; try discriminate H; inversion H; reflexivity.
 Qed.
 
 (* ---- (b) programs: induction over the op list ---- *)
@@ -80,15 +83,16 @@ Proof.
   cbn [final_state]. rewrite (step_follows_doc s o Ho). apply IH. exact Hr.
 Qed.
 
-(* the tilt bit influences nothing but propagate_fft: without that routine the types follow the
+(* the content influences nothing but propagate_fft: without that routine the types follow the
    three tables read on types alone *)
 Lemma step_types : forall s o, op_claimed o = true -> is_fft o = false ->
   erase (step observed s o) = tstep (ty s) o /\ ty (next (step observed s o)) = tnext (tstep (ty s) o).
 Proof.
-  intros s o H F. destruct o as [p | k | m].
+  intros s o H F. destruct o as [p clip | k clip | m | s'].
   - fin; split; reflexivity.
   - fin; try discriminate H; split; reflexivity.
   - fin; try discriminate F; split; reflexivity.
+  - split; reflexivity.
 Qed.
 
 Lemma program_types_follow_tables : forall ops s,
@@ -104,33 +108,37 @@ Proof.
 Qed.
 
 (* with propagate_fft too, as long as the program starts without tilt and no step attaches one *)
-Lemma step_types_untilted : forall w o, op_claimed o = true -> untilting o = true ->
-  erase (step observed (St w false) o) = tstep w o /\
-  next (step observed (St w false) o) = St (tnext (tstep w o)) false.
+Lemma step_types_untilted : forall s o, op_claimed o = true -> untilting o = true -> tilted s = false ->
+  erase (step observed s o) = tstep (ty s) o /\
+  ty (next (step observed s o)) = tnext (tstep (ty s) o) /\
+  tilted (next (step observed s o)) = false.
 Proof.
-  intros w o H U. destruct o as [p | k | m].
-  - fin; split; reflexivity.
-  - fin; try discriminate H; try discriminate U; split; reflexivity.
-  - fin; split; reflexivity.
+  intros s o H U T. destruct o as [p clip | k clip | m | s'].
+  - fin; try discriminate T; repeat split; reflexivity.
+  - fin; try discriminate H; try discriminate T; try discriminate U; repeat split; reflexivity.
+  - fin; try discriminate T; repeat split; reflexivity.
+  - unfold untilting in U. cbn in U. repeat rewrite andb_true_r in U.
+    repeat split. cbn. destruct (tilted s'); [discriminate U | reflexivity].
 Qed.
 
-Lemma untilted_program_types_follow_tables : forall ops w,
-  forallb op_claimed ops = true -> forallb untilting ops = true ->
-  map erase (run_program observed (St w false) ops) = run_types w ops.
+Lemma untilted_program_types_follow_tables : forall ops s,
+  forallb op_claimed ops = true -> forallb untilting ops = true -> tilted s = false ->
+  map erase (run_program observed s ops) = run_types (ty s) ops.
 Proof.
-  induction ops as [| o rest IH]; intros w H U; [reflexivity|].
+  induction ops as [| o rest IH]; intros s H U T; [reflexivity|].
   cbn in H, U. apply andb_prop in H. destruct H as [Ho Hr].
   apply andb_prop in U. destruct U as [Uo Ur].
-  destruct (step_types_untilted w o Ho Uo) as [E N].
+  destruct (step_types_untilted s o Ho Uo T) as [E [N T']].
   cbn [run_program run_types map]. rewrite E. f_equal.
-  rewrite N. apply IH; assumption.
+  rewrite (IH _ Hr Ur T'). rewrite N. reflexivity.
 Qed.
 
 (* ---- (c) the documented classes ---- *)
 Definition class_applies (k : cls) (p : ptype) : Prop :=
   observed_class_ptype k = p /\
   (exists w, doc_mul w p <> None) /\
-  (forall w t tl, doc_mul w p = Some t -> exists tl', observed_class_mul k (St w tl) = Yields (St t tl')).
+  (forall w t b clip, doc_mul w p = Some t ->
+     exists b', observed_class_mul k clip (St w b) = Yields (St t b')).
 
 Lemma documented_classes_apply_partial : forall k p,
   doc_class_ptype k = Some p -> known_broken k = false -> class_applies k p.
@@ -138,13 +146,13 @@ Proof.
   intros k p D B. unfold class_applies.
   destruct k; cbn in B; try discriminate B; cbn in D; inversion D; subst p; (split; [reflexivity|]);
     (split; [exists WNone; cbn; discriminate|]);
-    intros w t tl H; destruct w, tl; cbn in H; try discriminate H; inversion H; subst t; cbn;
+    intros w t b clip H; destruct w, b, clip; cbn in H; try discriminate H; inversion H; subst t; cbn;
     eexists; reflexivity.
 Qed.
 
 Lemma rotate_flip_refuted : forall k, known_broken k = true ->
   doc_class_ptype k = Some PTransform /\ observed_class_ptype k = PNone /\
-  forall s, observed_class_mul k s = Raises EAttributeError s.
+  forall clip s, observed_class_mul k clip s = Raises EAttributeError s.
 Proof.
   intros k B. destruct k; cbn in B; try discriminate B; repeat split; intros; fin; reflexivity.
 Qed.
@@ -157,4 +165,4 @@ Qed.
 
 Lemma programs_with_rotate_refuted :
   exists s ops, run_program observed s ops <> run_program documented s ops.
-Proof. exists (St WPupil false), [MulClass KRotate]. cbn. discriminate. Qed.
+Proof. exists (St WPupil Plain), [MulClass KRotate false]. cbn. discriminate. Qed.
